@@ -35,7 +35,7 @@ class FloatPrecision:
             rounded_value = np.round(abs_value * 10**exp0, decimals=self.precision) / 10**exp0
             rounded_post_decimal = self._float_to_string(rounded_value).split('.')[-1]
             if rounded_post_decimal == '0':
-                return 1-self.precision
+                return 0
             return -(len(rounded_post_decimal)-len(rounded_post_decimal.lstrip('0'))+self.precision)
         return len(pre_decimal)-self.precision
 
